@@ -11,7 +11,7 @@ from spacepackets.util import ByteFieldGenerator
 
 from .. import vclock, wire
 from ..oracles import trace_summary
-from ..world import EnumPlan, InternalError, Plan, RandomPlan, Runner, World
+from ..world import CKS, EnumPlan, InternalError, Plan, RandomPlan, Runner, World
 
 PROP = "C11"
 LEVEL = "exploration"
@@ -68,7 +68,9 @@ def gen_script(rng, nh=None):
 def gen_mib(rng):
     """values of the remote entity configuration which the user may change between two transactions"""
     return {"positive_ack_timer_interval_seconds": rng.choice([1.0, 1.0, 0.3, 2.5]), "nak_timer_interval_seconds": rng.choice([1.0, 1.0, 0.4, 3.0]),
-            "positive_ack_timer_expiration_limit": rng.choice([2, 2, 3]), "nak_timer_expiration_limit": rng.choice([2, 2, 3])}
+            "positive_ack_timer_expiration_limit": rng.choice([2, 2, 3]), "nak_timer_expiration_limit": rng.choice([2, 2, 3]),
+            "crc_on_transmission": rng.random() < 0.4, "crc_type": rng.choice(["crc32", "crc32c", "modular", "null"]),
+            "check_limit": rng.choice([1, 2, 3]), "disposition_on_cancellation": rng.random() < 0.4}
 
 
 def gen_cases(tier, seed):
@@ -110,7 +112,7 @@ def setup_transaction(w: World, spec, kind, content_tag):
     w.dst_id = ByteFieldGenerator.from_int(spec.get("idw", 2), 2)
     for rc in (w.rc_dst_at_src, w.rc_src_at_dst):
         for k, v in (spec.get("mib") or {}).items():
-            setattr(rc, k, v)
+            setattr(rc, k, CKS[v] if k == "crc_type" else v)
     w.cfg["req_mode"] = spec["mode"]
     w.cfg["req_closure"] = spec["closure"]
     w.cfg["mode"] = spec["mode"]  # (oracle helpers read the effective mode from here)
